@@ -25,6 +25,7 @@ type harnessReport struct {
 	PathsOK      int64         `json:"paths_ok"`
 	ReachedEnd   int64         `json:"reached_end"`
 	AssumeFalse  int64         `json:"assume_false"`
+	Unfair       int64         `json:"unfair_pruned"`
 	BranchPoints int64         `json:"branch_points"`
 	SplitPoints  int64         `json:"split_points"`
 	SchedPoints  int64         `json:"sched_points"`
@@ -265,7 +266,7 @@ func main() {
 				fatal(err)
 			}
 			hr := &harnessReport{Name: h.Name(), Paths: ex.stats.paths, PathsOK: ex.stats.pathsOK, ReachedEnd: ex.reachedEnd,
-				AssumeFalse: ex.stats.assumeFalse, BranchPoints: ex.stats.branchPoints, SplitPoints: ex.stats.splitPoints,
+				AssumeFalse: ex.stats.assumeFalse, Unfair: ex.stats.unfair, BranchPoints: ex.stats.branchPoints, SplitPoints: ex.stats.splitPoints,
 				SchedPoints: ex.stats.schedPoints, Instrs: ex.stats.instrs, MaxDecisions: ex.stats.maxDecisions,
 				Results: ex.results, OKSamples: ex.okSamples, WallS: time.Since(th).Seconds()}
 			hr.Exhaustive = !ex.stop && len(ex.queue) == 0
